@@ -753,4 +753,117 @@ theorem readChrom_writeChrom_general : ∀ (rs : List Record) (prevW prevR : Opt
             simp
 end chrom
 
+/-! ## 4. from the reader's rows to the rows of `phased_blocks_as_reads` -/
+
+/-- the rows of sample number `si` as `phased_blocks_as_reads` looks at them (`sampleRows` without the qualities) -/
+def rowsOf (rows : List Row) (si : Nat) (inputVariants : List VKey) : List VarPhase :=
+  rows.map fun row =>
+    let gp := row.calls.getD si ([], none)
+    ⟨row.pos, inputVariants.contains (row.pos, row.ref, row.alt), gp.1, gp.2⟩
+
+theorem sampleRows_fst (t : PTable) (si : Nat) (iv : List VKey) :
+    (sampleRows t si iv).map (·.1) = rowsOf t.rows si iv := by
+  unfold sampleRows rowsOf
+  rw [List.map_map]
+  have : t.rows = t.rows.zipIdx.map (·.1) := by simp
+  conv => rhs; rw [this, List.map_map]
+  rfl
+
+theorem rowsOf_sorted {rows : List Row} (h : rows.Pairwise (fun a b => a.pos < b.pos)) (si : Nat) (iv : List VKey) :
+    (rowsOf rows si iv).Pairwise (fun u v => u.pos < v.pos) := by
+  unfold rowsOf
+  rw [List.pairwise_map]
+  exact h
+
+/-- an eligible row of a table whose rows satisfy `RowOk` and carry biallelic genotype codes has phase `0|1` or `1|0` -/
+theorem rowsOf_biallelic {rows : List Row} (hok : ∀ row ∈ rows, RowOk row)
+    (hbi : ∀ row ∈ rows, ∀ x ∈ row.calls, ∀ a ∈ x.1, a ≤ 1) (si : Nat) (iv : List VKey) :
+    ∀ v ∈ rowsOf rows si iv, eligible 2 v = true → ∃ ph, v.phase = some ph ∧
+      (ph.alleles = [some 0, some 1] ∨ ph.alleles = [some 1, some 0]) := by
+  intro v hv hel
+  unfold rowsOf at hv
+  obtain ⟨row, hrow, rfl⟩ := List.mem_map.mp hv
+  simp only [eligible, Bool.and_eq_true, beq_iff_eq, Bool.not_eq_true'] at hel
+  obtain ⟨⟨⟨hlen, _⟩, hhom⟩, hph⟩ := hel
+  -- the call is a real entry of the row
+  have hmem : row.calls.getD si ([], none) ∈ row.calls := by
+    rw [List.getD_eq_getElem?_getD]
+    cases hget : row.calls[si]? with
+    | none => rw [List.getD_eq_getElem?_getD, hget] at hlen; simp at hlen
+    | some x => simp only [Option.getD_some]; exact List.mem_of_getElem? hget
+  generalize row.calls.getD si ([], none) = gp at hlen hhom hph hmem
+  obtain ⟨a, b, hab⟩ := pair_of_length_two hlen
+  have hne : a ≠ b := by
+    intro e; subst e; rw [hab] at hhom; simp [isHom] at hhom
+  have ha := hbi row hrow gp hmem a (by rw [hab]; simp)
+  have hb := hbi row hrow gp hmem b (by rw [hab]; simp)
+  cases hp : gp.2 with
+  | none => rw [hp] at hph; simp at hph
+  | some ph =>
+    refine ⟨ph, hp, ?_⟩
+    have := hok row hrow gp hmem ph hp a b hab hne
+    have hcases : (a = 0 ∧ b = 1) ∨ (a = 1 ∧ b = 0) := by omega
+    rcases hcases with ⟨rfl, rfl⟩ | ⟨rfl, rfl⟩
+    · exact this
+    · exact this.symm
+
+/-- a call whose FORMAT values all belong to keys of the record is a call as pysam presents it -/
+theorem wfCall_of_fields {fmt : List String} {c : Call} (h1 : ∀ kv ∈ c.fields, kv.1 ∈ fmt)
+    (h2 : c.gt = none → c.phased = false) : WfCall fmt c := by
+  refine ⟨fun k hk => ?_, h2⟩
+  unfold Call.get
+  generalize c.fields = f at h1
+  induction f with
+  | nil => rfl
+  | cons kv rest ih =>
+    obtain ⟨k', v⟩ := kv
+    have hne : k' ≠ k := fun e => hk (e ▸ h1 (k', v) List.mem_cons_self)
+    simp only [fget, hne, if_false]
+    exact ih (fun kv h => h1 kv (List.mem_cons_of_mem _ h))
+
+/-- without targets `write` copies the chromosome (as `Props.C04.untouched_when_no_targets`) -/
+theorem writeChrom_no_targets (cfg : Cfg) (hno : cfg.targets = []) (prev : Option Nat) (rs : List Record) :
+    outRecords (writeChrom cfg prev rs) = rs := by
+  have hft : ∀ n, findTarget cfg n = none := by intro n; simp [findTarget, hno]
+  have hreach : ∀ p r, reaches cfg p r = false := by
+    intro p r
+    have : anyPhased cfg r.pos = false := by
+      simp [anyPhased, hft]
+    simp [reaches, this]
+  have hrec : ∀ p r, writeRecord cfg p r = ⟨r, p, [], false⟩ := by
+    intro p r
+    simp only [writeRecord, hreach, Bool.false_eq_true, if_false, mapTargets, hft]
+    simp
+  induction rs generalizing prev with
+  | nil => rfl
+  | cons r rest ih =>
+    have h1 := ih prev
+    simp only [writeChrom, hrec, outRecords, List.map_cons] at h1 ⊢
+    rw [h1]
+
+/-- decidable version of `CallsOkF` (for concrete examples) -/
+def callsOkB (cfg : Cfg) (r : Record) : Bool :=
+  r.calls.all fun nc =>
+    nc.2.fields.all (fun kv => decide (kv.1 ∈ r.format)) && (nc.2.gt.isSome || !nc.2.phased) &&
+    decide (nc.1 ∈ cfg.samples) && ((findTarget cfg nc.1).isSome || (!nc.2.phased && nc.2.get "HP" == .missing))
+
+theorem callsOkF_of_B {cfg : Cfg} {r : Record} (h : callsOkB cfg r = true) : CallsOkF cfg r := by
+  unfold callsOkB at h
+  rw [List.all_eq_true] at h
+  refine ⟨fun nc hnc => ?_, fun nc hnc => ?_, fun nc hnc hft => ?_⟩
+  · have := h nc hnc
+    simp only [Bool.and_eq_true, List.all_eq_true, decide_eq_true_eq, Bool.or_eq_true] at this
+    obtain ⟨⟨⟨h1, h2⟩, _⟩, _⟩ := this
+    refine wfCall_of_fields h1 (fun hg => ?_)
+    rcases h2 with h2 | h2
+    · rw [hg] at h2; simp at h2
+    · simpa using h2
+  · have := h nc hnc
+    simp only [Bool.and_eq_true, decide_eq_true_eq] at this
+    exact this.1.2
+  · have := h nc hnc
+    simp only [Bool.and_eq_true, Bool.or_eq_true, hft, Option.isSome_none, Bool.false_eq_true, false_or,
+      Bool.not_eq_true', beq_iff_eq] at this
+    exact this.2
+
 end WhVerif.C09
